@@ -810,14 +810,17 @@ theorem getStrQuery_strItems (b : Backend) (kvs : List (Str × Str)) :
 theorem strItems_isEmpty (kvs : List (Str × Str)) : (strItems kvs).isEmpty = kvs.isEmpty := by
   cases kvs <;> rfl
 
-theorem build_full (e : Env) (sc : Str) (user pw : Option Str) (h H : Str) (port : Option Nat)
+/-- `build` lowers the scheme first (fix e21485a): `sc'` is the stored scheme, and the default port that is
+    dropped is that of `sc'` -/
+theorem build_full (e : Env) (sc sc' : Str) (hl : lowerAny e sc = .ok sc')
+    (user pw : Option Str) (h H : Str) (port : Option Nat)
     (p : Str) (kvs : List (Str × Str)) (f : Str)
     (hne : h ≠ []) (hH : H ≠ []) (henc : encodeHost e.o h true = .ok (bracket H))
     (hport : ∀ x, port = some x → x ≤ 65535)
     (hp : PyStr (47 :: p)) (hn : NoSurrogate (47 :: p)) :
     build e { scheme := sc, user := user, password := pw, host := h, port := port.map Int.ofNat,
               path := 47 :: p, query := .pairs (strItems kvs), fragment := f } =
-      .ok (builtFull e sc user pw H (effPort sc port) (normalizePath (47 :: p)) kvs f) := by
+      .ok (builtFull e sc' user pw H (effPort sc' port) (normalizePath (47 :: p)) kvs f) := by
   have hne' := HumanLemmas.isEmpty_false hne
   have hq := q_path_cons_slash e p hp hn
   have hd := stored_path e p hp hn
@@ -832,7 +835,7 @@ theorem build_full (e : Env) (sc : Str) (user pw : Option Str) (h H : Str) (port
       unfold build builtFull
       simp only [List.isEmpty_nil, Bool.not_true, Bool.false_and, Bool.false_eq_true, ↓reduceIte,
         ne_eq, not_true_eq_false, hne', Bool.not_false, Bool.and_false, Bool.and_true, Option.map_none,
-        henc, bind, Except.bind, pure, Except.pure, strItems, List.map_nil, qargTruthy, effPort,
+        henc, hl, bind, Except.bind, pure, Except.pure, strItems, List.map_nil, qargTruthy, effPort,
         netloc_build_none, hnlA, List.isEmpty_cons, hq, hd, fromParts, Bool.and_self, qtext,
         HostLemmas.joinC_nil, ite_ok, ite_self]
     | cons x xs =>
@@ -841,7 +844,7 @@ theorem build_full (e : Env) (sc : Str) (user pw : Option Str) (h H : Str) (port
       unfold build builtFull
       simp only [List.isEmpty_nil, Bool.not_true, Bool.false_and, Bool.false_eq_true, ↓reduceIte,
         ne_eq, not_true_eq_false, hne', Bool.not_false, Bool.and_false, Bool.and_true, Option.map_none,
-        henc, bind, Except.bind, pure, Except.pure, strItems, List.map_cons, qargTruthy, effPort,
+        henc, hl, bind, Except.bind, pure, Except.pure, strItems, List.map_cons, qargTruthy, effPort,
         netloc_build_none, hnlA, List.isEmpty_cons, hq, hd, fromParts, Bool.and_self, Bool.true_and,
         ite_ok, ite_self, this, Option.getD_some]
   | some n =>
@@ -853,10 +856,10 @@ theorem build_full (e : Env) (sc : Str) (user pw : Option Str) (h H : Str) (port
       unfold build builtFull
       simp only [List.isEmpty_nil, Bool.not_true, Bool.false_and, Bool.false_eq_true, ↓reduceIte,
         ne_eq, not_true_eq_false, hne', Bool.not_false, Bool.and_false, Bool.and_true, Option.map_some,
-        henc, bind, Except.bind, pure, Except.pure, strItems, List.map_nil, qargTruthy, effPort,
+        henc, hl, bind, Except.bind, pure, Except.pure, strItems, List.map_nil, qargTruthy, effPort,
         hrange, decide_true, htn, and_self, List.isEmpty_cons, hq, hd, fromParts, Bool.and_self, qtext,
         HostLemmas.joinC_nil, ite_ok, ite_self]
-      by_cases hdp : some n = defaultPort sc
+      by_cases hdp : some n = defaultPort sc'
       · simp only [hdp, ↓reduceIte, netloc_build_none, hnlA, Bool.not_false, Bool.and_self]
       · simp only [hdp, ↓reduceIte, netloc_build_some, hnlA, Bool.not_false, Bool.and_self]
     | cons x xs =>
@@ -865,10 +868,10 @@ theorem build_full (e : Env) (sc : Str) (user pw : Option Str) (h H : Str) (port
       unfold build builtFull
       simp only [List.isEmpty_nil, Bool.not_true, Bool.false_and, Bool.false_eq_true, ↓reduceIte,
         ne_eq, not_true_eq_false, hne', Bool.not_false, Bool.and_false, Bool.and_true, Option.map_some,
-        henc, bind, Except.bind, pure, Except.pure, strItems, List.map_cons, qargTruthy, effPort,
+        henc, hl, bind, Except.bind, pure, Except.pure, strItems, List.map_cons, qargTruthy, effPort,
         hrange, decide_true, htn, and_self, List.isEmpty_cons, hq, hd, fromParts, Bool.and_self,
         Bool.true_and, ite_ok, ite_self, this, Option.getD_some]
-      by_cases hdp : some n = defaultPort sc
+      by_cases hdp : some n = defaultPort sc'
       · simp only [hdp, ↓reduceIte, netloc_build_none, hnlA, Bool.not_false, Bool.and_self]
       · simp only [hdp, ↓reduceIte, netloc_build_some, hnlA, Bool.not_false, Bool.and_self]
 
